@@ -351,6 +351,10 @@ func (t *Tree) WalkDeleted(path []string, condition func(interface{}) bool, f fu
 	// to the entire Tree.
 	defer t.mu.Unlock()
 	t.mu.Lock()
+	if t.leafBranch == nil {
+		// An empty tree holds nothing to delete.
+		return
+	}
 	if delBr, _ := t.internalDelete(path, condition, f, false); delBr {
 		t.leafBranch = nil
 	}
@@ -436,6 +440,10 @@ func (t *Tree) DeleteConditional(subpath []string, condition func(interface{}) b
 	// to the entire Tree.
 	defer t.mu.Unlock()
 	t.mu.Lock()
+	if t.leafBranch == nil {
+		// An empty tree holds nothing to delete.
+		return nil
+	}
 	delBr, leaves := t.internalDelete(subpath, condition, func(interface{}) {}, true)
 	if delBr {
 		t.leafBranch = nil
